@@ -64,7 +64,7 @@ def nsOf (ns : String) (rs : RuleSel) : Selector :=
 
 /-- the map key of the representative peer -/
 def keyOf (ns : String) (rs : RuleSel) : String :=
-  uniqueKey (some (nsOf ns rs)) ++ "/" ++ uniqueKey rs.podSel
+  uniqueKey (some (nsOf ns rs)) ++ "|" ++ uniqueKey rs.podSel
 
 /-- the representative pod generated for a rule selector pair of a policy in namespace `ns` -/
 def newRep (ns : String) (rs : RuleSel) : Pod :=
@@ -675,12 +675,14 @@ theorem build_no_repNamespaceError {objs : List Obj} {x : XEngine} (h : build ob
   rw [this]
   rfl
 
-/-- two (optional) selectors with the same requirement strings and the same meaning -/
+/-- two (optional) selectors with the same requirement strings and the same meaning; an absent
+selector and an empty one are the same (no requirement) -/
 def SelEquiv (a b : Option Selector) : Prop :=
   match a, b with
   | none, none => True
   | some s, some t => s.reqStrings = t.reqStrings ∧ ∀ l, s.matches l = t.matches l
-  | _, _ => False
+  | none, some t => t.isEmpty = true
+  | some s, none => s.isEmpty = true
 
 theorem SelEquiv.refl (a : Option Selector) : SelEquiv a a := by
   cases a with
@@ -688,8 +690,8 @@ theorem SelEquiv.refl (a : Option Selector) : SelEquiv a a := by
   | some s => exact ⟨rfl, fun _ => rfl⟩
 
 /-- the map key of the representative peers is faithful on the rule selectors of the engine: two
-selector pairs with the same key are the same pair up to the spelling of the selectors. (Not true of
-arbitrary input: `uniqueKey` concatenates the requirement strings without a separator.) -/
+selector pairs with the same key are the same pair up to the spelling of the selectors. (A theorem
+for input with label syntax: `keyFaithful_of_ok`.) -/
 def KeyFaithful (e : Engine) : Prop :=
   ∀ np1 ∈ e.netpols, ∀ rs1 ∈ allSels np1, ∀ np2 ∈ e.netpols, ∀ rs2 ∈ allSels np2,
     keyOf np1.ns rs1 = keyOf np2.ns rs2 →
@@ -784,7 +786,7 @@ theorem build_covers {objs : List Obj} {x : XEngine} (h : build objs = .ok x)
         | none => rfl
         | some ps =>
           cases hp' : rs'.podSel with
-          | none => rw [hp'] at eP; exact absurd eP id
+          | none => rw [hp'] at eP; exact selectorsFullMatch_of_isEmpty eP _
           | some ps' =>
             rw [hp'] at eP
             exact selectorsFullMatch_of_reqStrings eP.1.symm
@@ -792,7 +794,7 @@ theorem build_covers {objs : List Obj} {x : XEngine} (h : build objs = .ok x)
       have hps'' : rs'.podSel = some ps' := hps'
       rw [hps''] at eP
       cases podSel with
-      | none => exact absurd eP id
+      | none => exact Selector.matches_of_isEmpty eP _
       | some ps => rw [eP.2]; exact hm.2
     · intro ns' hns'
       have : ns' = nsOf np'.ns rs' := (Option.some.inj hns').symm
@@ -1491,7 +1493,7 @@ theorem connsBetweenPeers_fields (e e' : Engine) (h1 : e'.netpols = e.netpols)
 
 theorem peersList_fields (e e' : Engine) (h1 : e'.netpols = e.netpols) (h2 : e'.pods = e.pods) :
     e'.peersList = e.peersList := by
-  unfold Engine.peersList Engine.podOwnersMap Engine.disjointIPBlocks
+  unfold Engine.peersList Engine.podOwnersMap Engine.sortedPods Engine.disjointIPBlocks
   rw [h1, h2]
 
 /-- the pods of the workload peers of the peers list are pods of the engine -/
@@ -1503,7 +1505,7 @@ theorem peersList_pods {e : Engine} {peers : List LPeer} (h : e.peersList = .ok 
     cases hr
   · obtain ⟨np, hnp, hr⟩ := List.mem_map.mp h1
     have hq := Structure.go_forall (fun x => x.2 ∈ e.pods) (res := [])
-      (fun _ h => by cases h) (fun p hp => hp) ho np hnp
+      (fun _ h => by cases h) (fun p hp => Structure.mem_sortedPods.mp hp) ho np hnp
     cases hr
     exact hq
 
@@ -1534,7 +1536,7 @@ theorem runs_agree {objs : List Obj} {x : XEngine} {e : Engine} (hx : build objs
       focus] at hd
     exact hd
 
-/-! ## H. label syntax: `SelectorsFullMatch` is sound, the map key is faithful up to collisions -/
+/-! ## H. label syntax: `SelectorsFullMatch` is sound, the map key is injective -/
 
 open SelStr in
 /-- on selectors with label syntax `SelectorsFullMatch` is semantically sound -/
@@ -1591,7 +1593,7 @@ theorem nsNameSelector_ok {ns : String} (h : SelStr.okl ns.toList) :
   intro kv hkv
   rw [List.mem_singleton] at hkv
   subst hkv
-  exact ⟨(by decide : SelStr.okl nsNameLabelKey.toList), h⟩
+  exact ⟨(by decide : SelStr.okl nsNameLabelKey.toList), h, (by decide : nsNameLabelKey ≠ "")⟩
 
 theorem faithful_of_ok (e : Engine) (h : SelectorsOK e) (P N : Option Selector)
     (hP : ∀ s, P = some s → s.OK) (hN : ∀ s, N = some s → s.OK) : Faithful e P N := by
@@ -1649,13 +1651,21 @@ theorem build_faithful {objs : List Obj} {x : XEngine} (h : build objs = .ok x)
   obtain ⟨h1, h2⟩ := allSels_ok hok hnp hrs
   exact faithful_of_ok x.eng hok _ _ h1 (fun s hs => by cases hs; exact h2)
 
+/-- the requirement strings of an optional selector (none for an absent one) -/
+def optReqs (o : Option Selector) : List String :=
+  match o with
+  | none => []
+  | some s => s.reqStrings
+
+theorem uniqueKey_eq (o : Option Selector) : uniqueKey o = ";".intercalate (optReqs o) := by
+  cases o <;> rfl
+
 /-- the map key has no collision on the rule selectors of the engine: two selector pairs with the
-same key have the same requirement strings, component by component. (`uniqueKey` concatenates the
-requirement strings without separator, so this can fail on input with label syntax.) -/
+same key have the same requirement strings, component by component -/
 def KeyInjective (e : Engine) : Prop :=
   ∀ np1 ∈ e.netpols, ∀ rs1 ∈ allSels np1, ∀ np2 ∈ e.netpols, ∀ rs2 ∈ allSels np2,
     keyOf np1.ns rs1 = keyOf np2.ns rs2 →
-      rs1.podSel.map (·.reqStrings) = rs2.podSel.map (·.reqStrings) ∧
+      optReqs rs1.podSel = optReqs rs2.podSel ∧
       (nsOf np1.ns rs1).reqStrings = (nsOf np2.ns rs2).reqStrings
 
 open SelStr in
@@ -1670,15 +1680,75 @@ theorem keyFaithful_of_injective {e : Engine} (hok : SelectorsOK e) (hk : KeyInj
     | none =>
       cases hp2 : rs2.podSel with
       | none => trivial
-      | some t => rw [hp1, hp2] at eP; cases eP
-    | some s =>
-      cases hp2 : rs2.podSel with
-      | none => rw [hp1, hp2] at eP; cases eP
       | some t =>
         rw [hp1, hp2] at eP
-        have : s.reqStrings = t.reqStrings := Option.some.inj eP
-        exact ⟨this, reqStrings_faithful s t (o1 s hp1) (o3 t hp2) this⟩
+        exact (reqStrings_eq_nil_iff t).mp eP.symm
+    | some s =>
+      cases hp2 : rs2.podSel with
+      | none =>
+        rw [hp1, hp2] at eP
+        exact (reqStrings_eq_nil_iff s).mp eP
+      | some t =>
+        rw [hp1, hp2] at eP
+        exact ⟨eP, reqStrings_faithful s t (o1 s hp1) (o3 t hp2) eP⟩
   · exact ⟨eN, reqStrings_faithful _ _ o2 o4 eN⟩
+
+open SelStr in
+/-- the `;`-joined requirement strings of an optional selector with label syntax determine them -/
+theorem uniqueKey_inj (a b : Option Selector) (ha : ∀ s, a = some s → s.OK)
+    (hb : ∀ s, b = some s → s.OK) (h : uniqueKey a = uniqueKey b) : optReqs a = optReqs b := by
+  -- an absent selector has the requirement strings of the empty one
+  have key : ∀ o : Option Selector, (∀ s, o = some s → s.OK) →
+      ∃ s : Selector, s.OK ∧ optReqs o = s.reqStrings := by
+    intro o ho
+    cases o with
+    | none =>
+      refine ⟨⟨[], []⟩, ⟨fun _ h => (by cases h), fun _ h => (by cases h)⟩, ?_⟩
+      exact ((reqStrings_eq_nil_iff ⟨[], []⟩).mpr rfl).symm
+    | some s => exact ⟨s, ho s rfl, rfl⟩
+  obtain ⟨s, hs, es⟩ := key a ha
+  obtain ⟨t, ht, et⟩ := key b hb
+  rw [uniqueKey_eq, uniqueKey_eq, es, et] at h
+  rw [es, et]
+  exact intercalate_reqStrings_inj s t hs ht h
+
+open SelStr in
+/-- With separators the map key is injective on selectors with label syntax: the pair key
+`uniqueKey N ++ "|" ++ uniqueKey P` determines the requirement strings of both components -/
+theorem keyInjective_of_ok {e : Engine} (hok : SelectorsOK e) : KeyInjective e := by
+  intro np1 h1 rs1 hr1 np2 h2 rs2 hr2 hkey
+  obtain ⟨o1, o2⟩ := allSels_ok hok h1 hr1
+  obtain ⟨o3, o4⟩ := allSels_ok hok h2 hr2
+  unfold keyOf at hkey
+  have h' := congrArg String.toList hkey
+  simp only [String.toList_append] at h'
+  have hbar : "|".toList = ['|'] := rfl
+  rw [hbar] at h'
+  simp only [List.append_assoc, List.singleton_append] at h'
+  have n1 : '|' ∉ (uniqueKey (some (nsOf np1.ns rs1))).toList :=
+    intercalate_reqStrings_no_bar _ o2
+  have n2 : '|' ∉ (uniqueKey (some (nsOf np2.ns rs2))).toList :=
+    intercalate_reqStrings_no_bar _ o4
+  obtain ⟨e1, e2⟩ := Structure.split_unique n1 n2 h'
+  have eN := uniqueKey_inj (some (nsOf np1.ns rs1)) (some (nsOf np2.ns rs2))
+    (fun s hs => by cases hs; exact o2) (fun s hs => by cases hs; exact o4) (String.toList_inj.mp e1)
+  have eP := uniqueKey_inj rs1.podSel rs2.podSel o1 o3 (String.toList_inj.mp e2)
+  exact ⟨eP, eN⟩
+
+/-- … hence faithful -/
+theorem keyFaithful_of_ok {e : Engine} (hok : SelectorsOK e) : KeyFaithful e :=
+  keyFaithful_of_injective hok (keyInjective_of_ok hok)
+
+/-- `build_covers` for input with label syntax -/
+theorem build_covers_ok {objs : List Obj} {x : XEngine} (h : build objs = .ok x)
+    (hok : SelectorsOK x.eng) (np : NetPol) (hnp : np ∈ x.eng.netpols) (d : Dir)
+    (haff : np.affects d = true) (r : NPRule) (hr : r ∈ Spec.npRules np d) (hcw : isCW r = false)
+    (podSel nsSel : Option Selector) (hpeer : NPPeer.sel podSel nsSel ∈ r.peers) (q : Pod)
+    (nsl : Labels) (hc : NsConsistent q nsl)
+    (hm : Spec.npPeerMatches np (.sel podSel nsSel) (.pod q nsl) = true) :
+    RepCovers x np (.sel podSel nsSel) q nsl ∨
+      Omitted x objs podSel (nsSel.getD (nsNameSelector np.ns)) :=
+  build_covers h (keyFaithful_of_ok hok) np hnp d haff r hr hcw podSel nsSel hpeer q nsl hc hm
 
 end Exposure
 end Netpol
